@@ -56,7 +56,8 @@ func init() {
 type policyCase struct {
 	tok, verify                          bool
 	mode                                 string
-	hosts                                []string
+	hosts                                []string // the slice the code under test is given (shared per configuration)
+	hostsConf                            []string // the list as configured (recorded in the case line); nil: hosts
 	tokhost, tokip, user, clientip       string
 	items                                []item
 }
@@ -68,6 +69,21 @@ var securityMu sync.Mutex // security.* are package globals
 func emitPolicy(env *runEnv, e *l1env, pc policyCase) {
 	securityMu.Lock()
 	defer securityMu.Unlock()
+	// the configured list as written in the configuration, recorded BEFORE the code under test sees it:
+	// the slice object is shared by all cases of one configuration (as security.Hosts is shared by all
+	// tunnels of one gateway), so a check that rewrites it in place shows up in later cases
+	conf := pc.hosts
+	if pc.hostsConf != nil {
+		conf = pc.hostsConf
+	}
+	hs := make([]string, len(conf))
+	for i, h := range conf {
+		hs[i] = hx([]byte(h))
+	}
+	hostsF := "-"
+	if len(hs) > 0 {
+		hostsF = strings.Join(hs, ",")
+	}
 	security.Hosts = pc.hosts
 	security.HostSelection = pc.mode
 	security.VerifyClientIP = pc.verify
@@ -104,14 +120,6 @@ func emitPolicy(env *runEnv, e *l1env, pc policyCase) {
 	}
 	p := protocol.NewProcessor(gw, tun)
 	obs := finishProcess(e, tr, mt, tun, func() error { return p.Process(ctx) })
-	hs := make([]string, len(pc.hosts))
-	for i, h := range pc.hosts {
-		hs[i] = hx([]byte(h))
-	}
-	hostsF := "-"
-	if len(hs) > 0 {
-		hostsF = strings.Join(hs, ",")
-	}
 	env.emit("policy", b01(pc.tok), b01(pc.verify), hx([]byte(pc.mode)), hostsF, hx([]byte(pc.tokhost)), hx([]byte(pc.tokip)),
 		hx([]byte(pc.user)), hx([]byte(pc.clientip)), e.live(), itemsString(pc.items), obs)
 }
@@ -150,6 +158,9 @@ func streamC03(env *runEnv) {
 	n := 0
 	for _, mode := range modes {
 		for _, hosts := range hostLists {
+			// one slice object per configuration, as one gateway has one security.Hosts for all its tunnels;
+			// the case lines record the list as configured
+			shared := append([]string{}, hosts...)
 			for _, user := range users {
 				for _, tok := range []bool{false, true} {
 					// requested names: every entry as substituted, and its near misses
@@ -185,7 +196,7 @@ func streamC03(env *runEnv) {
 							if !env.thorough() && (n%3 != 0) && ri > 1 {
 								continue
 							}
-							pc := policyCase{tok: tok, verify: r.Intn(4) != 0, mode: mode, hosts: hosts, tokhost: th,
+							pc := policyCase{tok: tok, verify: r.Intn(4) != 0, mode: mode, hosts: shared, hostsConf: hosts, tokhost: th,
 								tokip: "192.0.2.7", user: user, clientip: "192.0.2.7", items: exchange(tok, req)}
 							if r.Intn(5) == 0 {
 								pc.clientip = "192.0.2.8"
